@@ -32,7 +32,7 @@ def gen_c13(seed, fam=None, policy=None):
                    ["dec", 1.5], ["cplx", 1]]
     if typ == "time-based":
         step_faults.append(["none"])
-    data_faults = [["time_rel", -1], ["time_abs", -1]]
+    data_faults = [["time_rel", -1], ["time_abs", -1], ["time_only_rel", -1], ["time_only_rel", -2]]
     choices = [("step", h) for h in step_faults] + ([("get_data", h) for h in data_faults] if has_out else [])
     req, how = rng.choice(choices)
     fault = {"sid": sid, "k": rng.randint(1, 3), "req": req, "how": how}
@@ -99,6 +99,14 @@ def gen_c16(seed, policy=None):
     scn = S.normalize({"sims": sims, "conns": conns, "until": rng.randint(3, 5), "lazy": rng.random() < 0.5, "cache": rng.random() < 0.5})
     beh = {"kind": "agent", "agents": agents, "illegal": illegal,
            "tb_next": [ratios[0]] if rng.random() < 0.7 else [1, 2], "ev_next": [None, ratios[1], ratios[1]]}
+    if rng.random() < 0.25:
+        # simulator ids of which one is a PREFIX of another (as mosaik's own ids X-1 / X-10, or Grid / Grid2), shorter one started first
+        scn = S.rename_sids(scn, {"Sa": "G", "Sf": "G2", "Sb": "G-1", "Sc": "G-10", "Sd": "G-2", "Se": "G20"})
+        agents = {{"Sb": "G-1", "Sc": "G-10"}.get(k, k): dict(v, target="G", **({"multi": dict(v["multi"], targets=["G", "G2"])} if v.get("multi") else {}))
+                  for k, v in agents.items()}
+        rn = {"Sa": "G", "Sf": "G2", "Sb": "G-1", "Sc": "G-10", "Sd": "G-2", "Se": "G20"}
+        illegal = [dict(i_, sid=rn.get(i_["sid"], i_["sid"]), target=rn.get(i_["target"], i_["target"])) for i_ in illegal]
+        beh = dict(beh, agents=agents, illegal=illegal)
     if rng.random() < 0.15:
         # the shipped LocalProxy with generator-style step() methods: the call-backs are yielded to mosaik
         scn["transport"] = "local"
@@ -156,6 +164,13 @@ def gen_paths(seed, policy=None, behaviour=None):
         conns.append({"src": prev, "dst": x, "sa": "e", "da": "ti", "shift": 1 if rng.random() < 0.15 else 0})
         prev = x
     rng.shuffle(conns)
+    if rng.random() < 0.35:
+        # a simulator on the path is also connected to ITSELF (time-shifted, from the port that feeds its descendants), and
+        # that connection is made first
+        m = rng.choice(mids + [b])
+        nent = 2 if rng.random() < 0.5 else 1
+        next(x for x in sims if x["sid"] == m)["nent"] = nent
+        conns.insert(0, {"src": m, "dst": m, "sa": "e", "da": "ti2", "se": "E0", "de": f"E{nent - 1}", "shift": rng.choice([1, 2])})
     order = [x["sid"] for x in sims]
     rng.shuffle(order)
     scn = S.normalize({"sims": sims, "conns": conns, "until": rng.randint(5, 8), "order": order})
@@ -185,19 +200,40 @@ def gen_pending(seed, policy=None):
         yield {"id": [seed, n, lazy], "scn": dict(scn, lazy=lazy, cache=rng.random() < 0.5), "seed": seed, "behaviour": beh, "policy": dict(policy or {})}
 
 
-explore.GENERATORS.update({"c13": gen_c13, "c16": gen_c16, "c09": gen_c09, "paths": gen_paths, "pending": gen_pending})
+def gen_chain(seed, policy=None):
+    """A slow source, an event-based relay whose outputs may be dated into the FUTURE (so it can be idle with nothing
+    scheduled although it will be triggered again), and a consumer that also steps on its own."""
+    rng = random.Random(f"chain|{seed}")
+    sims = [{"sid": "Sa", "type": "time-based"}, {"sid": "Sb", "type": rng.choice(["event-based", "hybrid"])}, {"sid": "Sc", "type": "hybrid"}]
+    conns = [{"src": "Sa", "dst": "Sb", "sa": "p", "da": "ti"}, {"src": "Sb", "dst": "Sc", "sa": "e", "da": rng.choice(["ti", "i"])}]
+    if rng.random() < 0.3:
+        sims.append({"sid": "Sd", "type": "time-based"})
+        conns.append({"src": "Sd", "dst": "Sc", "sa": "p", "da": "i2"})
+    scn = S.normalize({"sims": sims, "conns": conns, "until": rng.randint(5, 8)})
+    beh = {"kind": "random", "tb_next": [1, 1, 2], "ev_next": [None, 1, 1, 2], "p_event": 0.9, "p_future": 0.6, "future": [0, 1, 2, 3]}
+    for lazy in (True, False):
+        for j in range(2):
+            yield {"id": [seed, lazy, j], "scn": dict(scn, lazy=lazy, cache=rng.random() < 0.5), "seed": seed * 7 + j, "behaviour": dict(beh, seed=seed),
+                   "policy": dict(policy or {"kind": "random", "early": [0.0, 0.5][j]})}
+
+
+explore.GENERATORS.update({"c13": gen_c13, "c16": gen_c16, "c09": gen_c09, "paths": gen_paths, "pending": gen_pending, "chain": gen_chain})
 
 # --------------------------------------------------------------------------- profiles
 
 FAM_ALL = {}
 PROFILES = {
-    "C01": [("random", {"fam": {"p_async": 0.2}}), ("random", {"fam": {"nsims": (3, 5), "nconns": (3, 7)}, "policy": {"early": 0.6}, "behaviour": {"p_none": 0.15}})],
+    "C01": [("random", {"fam": {"p_async": 0.2}}), ("random", {"fam": {"nsims": (3, 5), "nconns": (3, 7)}, "policy": {"early": 0.6}, "behaviour": {"p_none": 0.15}}),
+            ("chain", {"frac": 0.4})],
     "C02": [("random", {"fam": {"p_async": 0.1}, "behaviour": {"p_future": 0.4, "ev_next": [None, 1, 2, 3], "p_extra": 0.15}}),
             # (None, 0, "", False, lists and dictionaries are legal output VALUES: they trigger and travel like any other)
-            ("random", {"fam": {"types": ["event-based", "hybrid"], "until": (3, 5)}, "behaviour": {"p_future": 0.5, "future": [0, 1, 2, 3], "p_none": 0.3}}),
+            ("random", {"fam": {"types": ["event-based", "hybrid"], "until": (3, 5), "p_two_entities": 0.4}, "behaviour": {"p_future": 0.5, "future": [0, 1, 2, 3], "p_none": 0.3, "p_event": 0.5}}),
             ("random", {"fam": {"nsims": (8, 11), "nconns": (6, 14), "until": (2, 3), "weak": 0.2}, "frac": 0.08}),
             ("pending", {"frac": 0.15})],
     "C03": [("random", {"fam": {"shifts": (0, 0, 1, 2, 3), "until": (3, 5), "p_two_entities": 0.4}, "behaviour": {"p_extra": 0.15}}),
+            # declared initial data on ordinary connections, first values dated into the future
+            ("random", {"fam": {"groups": False, "types": ["hybrid", "hybrid", "time-based"], "until": (3, 5), "p_extra_init": 0.5, "shifts": (0, 0, 1)},
+                        "behaviour": {"future_pers": True, "p_future": 0.5, "future": [0, 1, 2]}, "frac": 0.3}),
             ("random", {"fam": {"groups": False, "nsims": (2, 3), "until": (4, 6), "types": ["time-based", "time-based", "hybrid"]},
                         "behaviour": {"tb_next": [1, 1, 2, 3], "recur": 2}, "frac": 0.4}),
             ("random", {"fam": {"groups": False, "nsims": (2, 3), "until": (3, 6)}, "behaviour": {"tb_next": [1, 2, 4], "p_future": 0.3, "p_none": 0.2}})],
